@@ -143,11 +143,22 @@ pub trait IdentProvider {
 
     fn reset_counter(&mut self);
 
+    /// the temporaries requested until `end_own_temporaries` are evaluated in another activation
+    /// (parameter defaults, class member initialisers): they get names that no statement of the
+    /// block uses, so that a call made in the middle of an expression cannot overwrite its temporaries
+    fn begin_own_temporaries(&mut self);
+
+    fn end_own_temporaries(&mut self);
+
     fn register_variable(&mut self, variable: &Ident);
 }
 
 pub struct DefaultIdentProvider {
     pub ident_counter: usize,
+    // first index never used in the block so far / index the statements of the block start from
+    next_unused: usize,
+    first_shared: usize,
+    own_temporaries: Vec<(usize, usize)>,
     pub idents: Vec<Ident>,
     pub variable_decl: HashSet<Ident>,
     pub local_var_prefix: String,
@@ -157,6 +168,9 @@ impl DefaultIdentProvider {
     pub fn new(local_var_prefix: &str) -> DefaultIdentProvider {
         DefaultIdentProvider {
             ident_counter: 0,
+            next_unused: 0,
+            first_shared: 0,
+            own_temporaries: Vec::new(),
             idents: Vec::new(),
             variable_decl: HashSet::new(),
             local_var_prefix: local_var_prefix.to_string(),
@@ -174,11 +188,30 @@ impl IdentProvider for DefaultIdentProvider {
     fn next_ident(&mut self) -> usize {
         let counter = self.ident_counter;
         self.ident_counter += 1;
+        self.next_unused = self.next_unused.max(self.ident_counter);
         counter
     }
 
     fn reset_counter(&mut self) {
-        self.ident_counter = 0;
+        self.ident_counter = self.first_shared;
+    }
+
+    fn begin_own_temporaries(&mut self) {
+        self.own_temporaries
+            .push((self.ident_counter, self.next_unused));
+        self.ident_counter = self.next_unused;
+    }
+
+    fn end_own_temporaries(&mut self) {
+        if let Some((counter, first_own)) = self.own_temporaries.pop() {
+            if self.next_unused > first_own {
+                // statements visited before used the indices below, the ones visited later start above
+                self.first_shared = self.next_unused;
+                self.ident_counter = self.next_unused;
+            } else {
+                self.ident_counter = counter;
+            }
+        }
     }
 
     fn register_variable(&mut self, variable: &Ident) {
